@@ -190,6 +190,16 @@ def build_pool(ctx, scratch):
         p = os.path.join(repo, 'tests', 'data', nme)
         if os.path.exists(p) and os.path.getsize(p) < 60000:
             pool.append((nme, open(p, 'rb').read(), None))
+    # every pool holds messages of editions 2, 3 and 4 (the section layouts differ per edition)
+    B33e, D33e = R.load_tables(0, 0, 0, 33, 0)
+    for ed in (2, 3, 4):
+        for sec2 in (None, b'ab'):
+            try:
+                msg = R.build_message([1001, 12001, 101000, 31001, 4024, 2001], B33e, D33e, R.Policy(rng), 2, ed == 3, ed,
+                                      dict(master_table_version=33, update_sequence_number=len(pool) % 256, data_category=ed), sec2)
+                pool.append(('edition%d-%s' % (ed, 'sec2' if sec2 else 'nosec2'), msg.bytes, None))
+            except Exception:
+                pass
     return pool
 
 
@@ -366,6 +376,33 @@ def run_history(ctx, pool, gold, limit, hno, alts):
                         got = {'digest-raises': type(e).__name__}
                     compare(ctx, 'decode', got, gold[j]['digest'], j, pool[j][0], hist, -1, 'scans-at-the-same-time/decode', 'start')
                 ctx.evaluated((hno, ctx.shard, 'prologue', len(hist), sc[2]), True)
+        # ... and with lenient decodes (ignore_value_expectation=True applies to THAT call) of intact messages of different editions on
+        # one decoder, in both orders, followed by metadata-only and plain decodes: each gives the message's fresh-interpreter digest
+        by_edition = {}
+        for j in ok_idxs:
+            bj = pool[j][1]
+            k0 = bj.find(b'BUFR')
+            if k0 >= 0 and len(bj) > k0 + 8:
+                by_edition.setdefault(bj[k0 + 7], []).append(j)
+        eds = sorted(by_edition)
+        if len(eds) >= 2:
+            dn = ['plain', 'c2', 'c0'][hno % 3]
+            order = [rng.choice(by_edition[e]) for e in (eds if hno % 2 else list(reversed(eds)))]
+            order = order + order[:1]
+            for n_, j in enumerate(order):
+                for kw in (dict(ignore_value_expectation=True), dict(ignore_value_expectation=True, info_only=True), {}):
+                    hist.append('prologue-decode[%s]%r:%s' % (dn, sorted(kw), pool[j][0]))
+                    ctx.count('prologue_lenient_decodes')
+                    try:
+                        mm = decs[dn].process(pool[j][1], **kw)
+                        if not kw.get('info_only'):
+                            compare(ctx, 'decode', DG.message_digest(mm), gold[j]['digest'], j, pool[j][0], hist, -1,
+                                    'lenient-decodes-of-several-editions/' + ('lenient' if kw else 'plain'), 'start')
+                    except Exception as e:
+                        ctx.violate('history-dependence/lenient-decodes-of-several-editions/raises:%s' % type(e).__name__, 'a decode %r of the intact message %s (edition '
+                                    '%d) raised %s after lenient decodes of messages of other editions on the same decoder' % (sorted(kw), pool[j][0],
+                                    pool[j][1][pool[j][1].find(b'BUFR') + 7], type(e).__name__), dict(history=hist, op='decode', message=pool[j][0]), exc=e)
+                        break
         for step in range(STEPS[ctx.tier]):
             if not ctx.more():
                 break
@@ -454,9 +491,19 @@ def run_history(ctx, pool, gold, limit, hno, alts):
                 hist.append('%s:%s' % (op, name))
                 ctx.count('lenient_then_strict_steps')
                 try:
-                    ml = decs[dn].process(b if rng.random() < 0.5 else DG.damaged_copy(b), ignore_value_expectation=True)
-                except Exception:
+                    lenient_of_intact = rng.random() < 0.5
+                    ml = decs[dn].process(b if lenient_of_intact else DG.damaged_copy(b), ignore_value_expectation=True)
+                    if lenient_of_intact:
+                        # leniency concerns expected constants only: an intact message decodes to what it always decodes to,
+                        # whatever editions and modes this decoder served leniently before
+                        ctx.count('lenient_decodes_of_intact_messages_compared')
+                        compare(ctx, 'decode', DG.message_digest(ml), g['digest'], i, name, hist, step,
+                                'lenient-decode/' + ('alias-root' if dn.startswith('alt') else 'decode'), prev)
+                except Exception as e:
                     ctx.count('lenient_decode_raises')
+                    if lenient_of_intact:
+                        ctx.violate('history-dependence/lenient-decode-raises:%s/after-%s' % (type(e).__name__, prev), 'step %d: the lenient decode of the intact message %s '
+                                    'raised %s after history %s' % (step, name, type(e).__name__, hist[-8:]), dict(history=hist, step=step, message=name, op=op), exc=e)
                 try:
                     decs[dn].process(DG.damaged_copy(b))
                     got_d = 'decodes'
@@ -471,7 +518,7 @@ def run_history(ctx, pool, gold, limit, hno, alts):
                 ctx.count('history_steps')
                 ctx.evaluated((hno, ctx.shard, step, tuple(hist[-3:])), True)
                 continue
-            elif r < 0.68 and ok_idxs:
+            elif r < 0.64 and ok_idxs:
                 # scans in flight: a scan over two or three pool messages is started on one of the decoders and advanced ONE
                 # message at a time, at later steps of the history, while every other kind of operation goes on in between (and
                 # some scans are never finished).  Each message it delivers is the message a brand-new interpreter decodes.
@@ -533,7 +580,7 @@ def run_history(ctx, pool, gold, limit, hno, alts):
                 ctx.count('history_steps')
                 ctx.evaluated((hno, ctx.shard, step, tuple(hist[-3:])), True)
                 continue
-            elif r < 0.72:
+            elif r < 0.68:
                 op = 'failing-decode'
                 hist.append('%s:%s' % (op, name))
                 dn = rng.choice(list(decs))
@@ -546,7 +593,7 @@ def run_history(ctx, pool, gold, limit, hno, alts):
                 prev_msg = None
                 ctx.count('history_steps')
                 continue
-            elif r < 0.77:
+            elif r < 0.82:
                 if rng.random() < 0.15:
                     # history event: ANOTHER encoder object, built with a table-version override, encodes something
                     ov = rng.choice([13, 31, 25])
